@@ -345,7 +345,7 @@ def std_evidence(ck, prefixes, scripts, gscripts, stats, impl_out, extra=None):
     ]
 
 
-def whole_programs(ck, n, policies=("default",)):
+def whole_programs(ck, n, policies=("default",), shapes=("V", "VV", "VNV", "PV", "NV", "P", "VVV", "NVVN"), big_product=None):
     """generated C++ programs: real classes (virtual inheritance, abstract classes), the real registration
     templates in several groupings, the real macros, std_rtti; every call compared with the specification
     oracle. Returns the evidence entry; records a violation on a difference."""
@@ -353,25 +353,58 @@ def whole_programs(ck, n, policies=("default",)):
     rng = random.Random(repr((ck.seed, ck.prop, "whole-programs")))
     progs, scripts, meta = [], [], []
     for i in range(n):
-        reg = gen.gen_registry(rng, n_classes=rng.randint(3, 8), shapes=["V", "VV", "VNV", "PV", "NV", "P", "VVV", "NVVN"], abstract_p=0.2)
+        reg = gen.gen_registry(rng, n_classes=rng.randint(3, 8), shapes=list(shapes), abstract_p=0.2)
         while not reg.methods:
-            reg = gen.gen_registry(rng, n_classes=rng.randint(3, 8), shapes=["V", "VV", "VNV", "PV", "NV", "P", "VVV", "NVVN"], abstract_p=0.2)
+            reg = gen.gen_registry(rng, n_classes=rng.randint(3, 8), shapes=list(shapes), abstract_p=0.2)
         grouping = ["one", "direct", "split"][i % 3]
         pol = policies[i % len(policies)]
-        src, sc = hprog.prog_dispatch(reg, rng, grouping=grouping, policy=pol)
+        src, sc = hprog.prog_dispatch(reg, rng, grouping=grouping, policy=pol, rotate=i)
         name = "wp%d-%s-%s" % (i, grouping, reg.family)
         progs.append((name, src))
         scripts.append((name, ["policy plain"] + sc))
         meta.append({"program": name, "classes": len(reg.parents), "multiple_inheritance": any(len(p_) > 1 for p_ in reg.parents),
                      "abstract": sum(1 for a_ in reg.abstract if a_), "methods": len(reg.methods), "grouping": grouping, "policy": pol})
+    # one program whose definitions are registered by use_definitions over a product larger than the 512
+    # elements at which aggregate splits (odd size): every pair must run its own definition
+    big = None
+    if big_product:
+        nl, nr = big_product
+        big = "wp-usedefs-%dx%d" % (nl, nr)
+        progs.append((big, hprog.prog_use_definitions(nl, nr, [])))
+        lid = [2000 + a for a in range(nl)]
+        rid = [5000 + b for b in range(nr)]
+        sc = ["class 1 1000 0 1000"] + ["class %d %d 0 %d 1000" % (2 + k, c, c) for k, c in enumerate(lid + rid)]
+        sc += ["method 0 VV 1000 1000"] + ["def 0 %d %d %d" % (1000 * a + b, lid[a], rid[b]) for a in range(nl) for b in range(nr)]
+        sc += ["update"] + ["call 0 %d %d" % (lid[a], rid[b]) for a in range(nl) for b in range(nr)]
+        scripts.append((big, ["policy plain"] + sc))
     res = hprog.build_and_run(progs, jobs=16)
     orc = verif.run_model(scripts, mode="--oracle")
-    calls = 0
+    calls = raised = 0
+    if big:
+        rc, so, se = res[big]
+        progs.pop()
+        _, bsc = scripts.pop()
+        want = [l.split()[1] if l.startswith("ran ") else "E" for l in orc.get(big, [])[1:]]
+        got = next((l.split()[1:] for l in so.splitlines() if l.startswith("calls")), [])
+        calls += len(got)
+        big_meta = {"program": big, "definitions_registered_by_use_definitions": nl * nr, "calls": len(got)}
+        if rc != 0 or got != want:
+            d_ = [(k_, a_, b_) for k_, (a_, b_) in enumerate(zip(got, want)) if a_ != b_][:3]
+            found = rc == 0 and bool(d_)
+            ck.violation(verif.write_replay(ck.prop, big, {
+                "property": ck.prop,
+                "kind": ("failing input: with %d definitions registered through use_definitions, a call does not run the definition the specification prescribes" % (nl * nr)
+                         if found else "the use_definitions program does not compile, crashed, or printed fewer results than the oracle"),
+                "first_differences(call number, program, specification)": d_,
+                "calls": [[c_ for c_ in bsc if c_.startswith("call ")][k_] for k_, _, _ in d_],
+                "rc": rc, "stderr": se[-1500:], "program": "tools/hprog.py prog_use_definitions(%d, %d, [])" % (nl, nr)}), found)
     for (name, src), (_, sc), mt in zip(progs, scripts, meta):
         rc, so, se = res[name]
         got, want = so.splitlines(), orc.get(name, [])
         mt["calls"] = max(0, len(got) - 1)
+        mt["forms"] = sorted(set(re.sub(r"K\d+", "K", f_) for f_ in re.findall(r"virtual_<[^,()]*>|const VSP|VSP|VP", " ".join(l for l in src.splitlines() if l.startswith("declare_method")))))
         calls += mt["calls"]
+        raised += sum(1 for l in got if l.startswith("raised"))
         if (rc != 0 or got != want) and not any(f_ for _, f_ in ck.violations):
             d_ = [(k_, a_, b_) for k_, (a_, b_) in enumerate(zip(got, want)) if a_ != b_][:3]
             found = rc == 0 and bool(d_)
@@ -383,12 +416,14 @@ def whole_programs(ck, n, policies=("default",)):
                 "first_differences(line, program, specification)": d_,
                 "calls": [call_lines[k_] for k_, _, _ in d_ if k_ < len(call_lines)],
                 "rc": rc, "stderr": se[-1500:], "oracle_script": sc, "source": src}), found)
-    return {"programs": len(progs), "calls_compared_with_the_specification": calls, "cases": meta}
+    if big:
+        meta.append(big_meta)
+    return {"programs": len(meta), "calls_compared_with_the_specification": calls, "raised": raised, "cases": meta}
 
 
 def check_C01(ck):
     r = check_dispatch_family(ck, 1200, 20000, "C01: tables, slots, dispatch data and every call outcome")
-    wp = whole_programs(ck, tier_n(ck, 12, 90), policies=("default", "default", "::yorel::yomm2::policy::debug"))
+    wp = whole_programs(ck, tier_n(ck, 12, 90), policies=("default", "default", "::yorel::yomm2::policy::debug"), big_product=(19, 27))
     std_evidence(ck, ["C01"], *r[:4], extra={"whole_programs": wp})
 
 
@@ -648,8 +683,13 @@ def check_C02(ck):
         ab.append(("abort%d-%s" % (i, pol), lines))
     io2, mo2, nb2 = correspondence(ck, ab, "C02: a returning handler aborts the program")
     aborted = sum(1 for ls in io2.values() if "!signal 6" in ls)
+    # compiled programs: the error object built by the real handlers from the declared parameter types
+    # (every way of writing a virtual parameter), compared with the specification call by call
+    wp = whole_programs(ck, tier_n(ck, 12, 60), policies=("default", "::yorel::yomm2::policy::debug"),
+                        shapes=("P", "PV", "PP", "VP", "V", "VV", "NPN", "VNV"))
+    wp["calls_that_raise_an_error"] = wp.pop("raised", None)
     std_evidence(ck, ["C02"], scripts + ab, gscripts, stats, impl_out,
-                 {"scripts_with_returning_handler": len(ab), "of_which_aborted": aborted})
+                 {"scripts_with_returning_handler": len(ab), "of_which_aborted": aborted, "whole_programs": wp})
 
 
 # ----------------------------------------------------------------------------------------------------
@@ -1109,7 +1149,7 @@ def check_C09(ck):
     n = tier_n(ck, 300, 5000)
     routes = {}
     for i in range(n):
-        pol = rng.choice(["fast", "checked", "plain", "map", "indirect", "indirect", "proj", "backward"])
+        pol = rng.choice(["fast", "checked", "plain", "map", "indirect", "indmix", "proj", "backward"])
         reg = gen.gen_registry(rng, n_classes=rng.randint(2, 8), shapes=P_SHAPES, n_methods=rng.randint(1, 3))
         if not reg.methods:
             continue
@@ -1182,7 +1222,7 @@ def check_C09(ck):
                 lines.append("def %d %d %s" % (m["key"], 9000 + m["key"], " ".join(str(ids[c][0]) for c in m["vp"])))
                 m["defs"].append((9000 + m["key"], list(m["vp"])))
             lines.append("update")
-            sweep("s1", keep=made if pol == "indirect" else None)
+            sweep("s1", keep=made if pol in ("indirect", "indmix") else None)
         name = "v%d-%s" % (i, pol)
         scripts.append((name, lines))
         pairs[name] = ps
